@@ -15,6 +15,7 @@ def main():
     os.makedirs(os.path.join(VERIF, "measured"), exist_ok=True)
     path = os.path.join(VERIF, "measured", tier + ".json")
     data = json.load(open(path)) if os.path.exists(path) else {}
+    mine = {}
     for cid in ids:
         t0 = time.time()
         r = subprocess.run(
@@ -36,7 +37,12 @@ def main():
                 "workloads", "mutation_ops_recorded", "second_crash_states",
                 "sigkill_conformance", "schedules", "configs", "conformance")},
         }
-        json.dump(data, open(path, "w"), indent=1, sort_keys=True)
+        # (several lanes may run at once: merge this lane's entries into
+        # whatever the file holds now)
+        mine[cid] = data[cid]
+        cur = json.load(open(path)) if os.path.exists(path) else {}
+        cur.update(mine)
+        json.dump(cur, open(path, "w"), indent=1, sort_keys=True)
         print("%s %s exit=%d %.0fs %s" % (cid, tier, r.returncode, wall,
                                           line[-1] if line else ""), flush=True)
 
